@@ -94,12 +94,13 @@ Hypothesis Htb : tables_ok tb = true.
 
 Lemma tb_parts :
   type_lists_ok tb = true /\ guards_ok tb = true /\ pixel_zeros_ok tb = true /\ no_raw_setter tb = true
-  /\ iadd_through_setters tb = true /\ eq_shape_ok tb = true.
+  /\ iadd_through_setters tb = true /\ eq_shape_ok tb = true /\ reads_guarded tb = true /\ resets_ok tb = true.
 Proof.
   pose proof Htb as H. unfold tables_ok in H.
+  apply andb_prop in H. destruct H as [H H8]. apply andb_prop in H. destruct H as [H H7].
   apply andb_prop in H. destruct H as [H H6]. apply andb_prop in H. destruct H as [H H5].
   apply andb_prop in H. destruct H as [H H4]. apply andb_prop in H. destruct H as [H H3].
-  apply andb_prop in H. destruct H as [H1 H2]. auto 10.
+  apply andb_prop in H. destruct H as [H1 H2]. auto 12.
 Qed.
 
 Lemma iadd_kinds : ph_iadd tb = IAddSetters /\ ph_add tb = IAddSetters.
@@ -110,7 +111,7 @@ Qed.
 
 Lemma eq_kinds : base_eq tb = EqBothNone /\ ph_eq_geom tb = true.
 Proof.
-  destruct tb_parts as [_ [_ [_ [_ [_ H]]]]]. unfold eq_shape_ok in H.
+  destruct tb_parts as [_ [_ [_ [_ [_ [H _]]]]]]. unfold eq_shape_ok in H.
   destruct (base_eq tb); [discriminate|]. auto.
 Qed.
 
@@ -216,12 +217,6 @@ Proof.
       unfold Inv, inv_b in Hc. rewrite Ec in Hc. exact Hc. }
     destruct (validate_base tb c cur); exact Hok.
   - apply base_set_inv; assumption.
-Qed.
-
-Lemma read2d_arr_base o a : read2d o = RetArr a -> c_content o = Some a.
-Proof.
-  unfold read2d. destruct (c_content o) as [x|]; [|discriminate].
-  destruct (is_photon (c_kind o) && is_xr x); [discriminate|]. intro H. injection H as ->. reflexivity.
 Qed.
 
 Lemma setter_not_raw k : det_setter tb k <> SetterRaw.
@@ -420,7 +415,7 @@ Lemma det_assign_photon_inv c o :
 Proof.
   intros Hk Hc. assert (Hk' : is_photon (c_kind c) = true) by (rewrite Hk; reflexivity).
   unfold det_assign. destruct (det_setter tb (c_kind c)) eqn:Es; simpl.
-  - destruct (read2d o) eqn:Er; simpl; try exact Hc. rewrite Hk'. apply photon_set2d_inv; assumption.
+  - destruct (read2d tb o) eqn:Er; simpl; try exact Hc. rewrite Hk'. apply photon_set2d_inv; assumption.
   - exfalso. eapply setter_not_raw; eauto.
   - rewrite Hk'. simpl. destruct (c_content o) as [a|]; [|reflexivity].
     destruct (is_xr a); [|apply photon_set2d_inv; assumption].
@@ -433,7 +428,7 @@ Lemma det_assign_photon_accepted c o :
 Proof.
   intros Hk Hc.
   unfold det_assign. destruct (det_setter tb (c_kind c)) eqn:Es; simpl.
-  - destruct (read2d o) eqn:Er; simpl; try exact Hc. rewrite Hk. apply photon_set2d_accepted; assumption.
+  - destruct (read2d tb o) eqn:Er; simpl; try exact Hc. rewrite Hk. apply photon_set2d_accepted; assumption.
   - exfalso. eapply setter_not_raw; eauto.
   - rewrite Hk. simpl. destruct (c_content o) as [a|]; [|reflexivity].
     destruct (is_xr a); [|apply photon_set2d_accepted; assumption].
@@ -482,83 +477,121 @@ Proof.
   cbn [zeros_f64 a_dt a_xr a_shape]. rewrite Hz, shape_eqb_refl. reflexivity.
 Qed.
 
+(* ---------------------------------------------------------------- resets *)
+
+Lemma empty_kinds :
+  empty_of tb Photon = EmptyNone /\ empty_of tb Signal = EmptyNone /\ empty_of tb Image = EmptyNone
+  /\ empty_of tb Phase = EmptyNone
+  /\ d_empty tb Photon = DAlways /\ d_empty tb Signal = DAlways /\ d_empty tb Image = DAlways
+  /\ d_empty tb Pixel <> DNever /\ mkid_phase_zero tb = true.
+Proof.
+  destruct tb_parts as [_ [_ [_ [_ [_ [_ [_ H]]]]]]]. unfold resets_ok in H. simpl in H.
+  destruct (empty_of tb Photon), (empty_of tb Signal), (empty_of tb Image), (empty_of tb Phase); try discriminate.
+  destruct (d_empty tb Photon), (d_empty tb Signal), (d_empty tb Image); try discriminate.
+  destruct (mkid_phase_zero tb); [|destruct (d_empty tb Pixel); discriminate].
+  destruct (d_empty tb Pixel); try discriminate; repeat split; congruence.
+Qed.
+
+Lemma do_empty_cases c :
+  do_empty tb c = with_content c None
+  \/ (c_kind c = Pixel /\ do_empty tb c = with_content c (Some (zeros_f64 (c_rows c) (c_cols c)))).
+Proof.
+  destruct empty_kinds as [E1 [E2 [E3 [E4 _]]]]. unfold do_empty.
+  destruct (c_kind c) eqn:Ek; rewrite ?E1, ?E2, ?E3, ?E4; auto.
+  destruct (empty_of tb Pixel); auto.
+Qed.
+
+Lemma do_empty_inv c : Inv (do_empty tb c).
+Proof.
+  destruct (do_empty_cases c) as [-> | [Ek ->]]; [reflexivity|].
+  unfold Inv. rewrite inv_with_content, Ek. apply arr_ok_zeros.
+Qed.
+
+Lemma do_empty_accepted c : accepted tb (do_empty tb c) = true.
+Proof.
+  destruct (do_empty_cases c) as [-> | [Ek ->]]; [reflexivity|].
+  apply accepted_set; [rewrite Ek; reflexivity | apply validate_zeros; exact Ek].
+Qed.
+
 (* ---------------------------------------------------------------- one step, any sequence *)
+
+Lemma dempty_inv c reset : Inv c -> Inv (fst (step tb c (ODEmpty reset))).
+Proof.
+  intro Hc. simpl. destruct (c_kind c) eqn:Ek;
+    try (destruct (d_empty tb _); [apply do_empty_inv | destruct reset; [apply do_empty_inv | exact Hc] | exact Hc]).
+  destruct (c_content c) as [cur|] eqn:Ec; [|exact Hc]. destruct (reset && mkid_phase_zero tb); [|exact Hc].
+  rewrite validate_base_with_data.
+  assert (Hok : Inv (with_content c (Some (with_data cur (map cell_mul0 (a_data cur)))))).
+  { unfold Inv. rewrite inv_with_content, arr_ok_base_with_data by (rewrite Ek; reflexivity).
+    unfold Inv, inv_b in Hc. rewrite Ec in Hc. exact Hc. }
+  destruct (validate_base tb c cur); exact Hok.
+Qed.
 
 Theorem step_inv c o : Inv c -> accepted tb c = true -> Inv (fst (step tb c o)).
 Proof.
-  intros Hc Hacc. destruct iadd_kinds as [Ki Ka]. destruct (is_photon (c_kind c)) eqn:Hk.
-  - (* Photon *)
-    assert (Hk' : c_kind c = Photon) by (apply is_photon_kind; exact Hk).
-    destruct o; simpl; rewrite ?Hk, ?Ki, ?Ka; try exact Hc.
-    + apply photon_set2d_inv; assumption.
-    + apply photon_set3d_inv; assumption.
-    + apply photon_iadd_inv; assumption.
-    + apply photon_iadd_inv; assumption.
-    + rewrite Hk'. reflexivity.
-    + apply det_assign_photon_inv; assumption.
-    + rewrite Hk'. reflexivity.
-  - (* ArrayBase classes *)
-    destruct o; simpl; rewrite ?Hk; try exact Hc.
-    + apply base_set_inv; assumption.
-    + destruct o as [a|]; [apply base_set_inv; assumption | reflexivity].
-    + apply base_iadd_inv; assumption.
-    + apply base_iadd_inv; assumption.
-    + destruct (c_kind c) eqn:Ek; try reflexivity. simpl. unfold Inv. rewrite inv_with_content, Ek. apply arr_ok_zeros.
-    + unfold det_assign. destruct (det_setter tb (c_kind c)) eqn:Es; simpl.
-      * destruct (read2d o) eqn:Er; simpl; try exact Hc. rewrite Hk. apply base_set_inv; assumption.
-      * exfalso. eapply setter_not_raw; eauto.
-      * rewrite Hk. exact Hc.
-      * exact Hc.
-    + destruct (c_kind c) eqn:Ek; try reflexivity; try discriminate.
-      * destruct reset; simpl; [|exact Hc]. unfold Inv. rewrite inv_with_content, Ek. apply arr_ok_zeros.
-      * destruct (c_content c) as [cur|] eqn:Ec; [|exact Hc]. destruct reset; [|exact Hc].
-        rewrite validate_base_with_data.
-        assert (Hok : Inv (with_content c (Some (with_data cur (map cell_mul0 (a_data cur)))))).
-        { unfold Inv. rewrite inv_with_content, arr_ok_base_with_data by (rewrite Ek; reflexivity).
-          unfold Inv, inv_b in Hc. rewrite Ec in Hc. exact Hc. }
-        destruct (validate_base tb c cur); exact Hok.
+  intros Hc Hacc. destruct iadd_kinds as [Ki Ka].
+  destruct o as [a|a|oa|a|a| | | |o'|o'|o'|reset|]; try exact Hc; try (apply dempty_inv; exact Hc);
+    try (apply do_empty_inv).
+  all: destruct (is_photon (c_kind c)) eqn:Hk; simpl; rewrite ?Hk, ?Ki, ?Ka; try exact Hc.
+  - apply photon_set2d_inv; [apply is_photon_kind|]; assumption.
+  - apply base_set_inv; assumption.
+  - apply photon_set3d_inv; [apply is_photon_kind|]; assumption.
+  - destruct oa as [a|]; [apply base_set_inv; assumption|].
+    destruct (upd_none tb (c_kind c)); [apply do_empty_inv | reflexivity].
+  - apply photon_iadd_inv; [apply is_photon_kind| |]; assumption.
+  - apply base_iadd_inv; assumption.
+  - apply photon_iadd_inv; [apply is_photon_kind| |]; assumption.
+  - apply base_iadd_inv; assumption.
+  - apply det_assign_photon_inv; [apply is_photon_kind|]; assumption.
+  - unfold det_assign. destruct (det_setter tb (c_kind c)) eqn:Es; simpl.
+    + destruct (read2d tb o') eqn:Er; simpl; try exact Hc. rewrite Hk. apply base_set_inv; assumption.
+    + exfalso. eapply setter_not_raw; eauto.
+    + rewrite Hk. exact Hc.
+    + exact Hc.
 Qed.
 
 Lemma step_kind c o : c_kind (fst (step tb c o)) = c_kind c /\ c_rows (fst (step tb c o)) = c_rows c
                       /\ c_cols (fst (step tb c o)) = c_cols c.
 Proof.
   destruct o; simpl;
-    unfold photon_iadd, det_assign, base_iadd, photon_set2d, photon_set3d, base_set;
+    unfold photon_iadd, det_assign, base_iadd, photon_set2d, photon_set3d, base_set, do_empty;
     repeat match goal with
            | |- context [match ?x with _ => _ end] => destruct x eqn:?
            | |- context [if ?x then _ else _] => destruct x eqn:?
            end; simpl; auto.
 Qed.
 
+Lemma dempty_accepted c reset : accepted tb c = true -> accepted tb (fst (step tb c (ODEmpty reset))) = true.
+Proof.
+  intro Hr. simpl. destruct (c_kind c) eqn:Ek;
+    try (destruct (d_empty tb _); [apply do_empty_accepted | destruct reset; [apply do_empty_accepted | exact Hr] | exact Hr]).
+  destruct (c_content c) as [cur|] eqn:Ec; [|exact Hr]. destruct (reset && mkid_phase_zero tb); [|exact Hr].
+  assert (Hk2 : is_photon (c_kind c) = false) by (rewrite Ek; reflexivity).
+  rewrite validate_base_with_data, (accepted_base c Hk2 Hr cur Ec). simpl. apply accepted_set; [exact Hk2|].
+  rewrite validate_base_with_data. eapply accepted_base; eauto.
+Qed.
+
 Theorem step_accepted c o : accepted tb c = true -> accepted tb (fst (step tb c o)) = true.
 Proof.
-  intros Hr. destruct iadd_kinds as [Ki Ka]. destruct (is_photon (c_kind c)) eqn:Hk.
-  - destruct o; simpl; rewrite ?Hk, ?Ki, ?Ka; try exact Hr.
-    + apply photon_set2d_accepted; assumption.
-    + apply photon_set3d_accepted; assumption.
-    + apply photon_iadd_accepted; assumption.
-    + apply photon_iadd_accepted; assumption.
-    + rewrite (is_photon_kind _ Hk). reflexivity.
-    + apply det_assign_photon_accepted; assumption.
-    + rewrite (is_photon_kind _ Hk). reflexivity.
-  - destruct o; simpl; rewrite ?Hk; try exact Hr.
-    + apply base_set_accepted; assumption.
-    + destruct o; [apply base_set_accepted; assumption | apply accepted_none].
-    + apply base_iadd_accepted; assumption.
-    + apply base_iadd_accepted; assumption.
-    + destruct (c_kind c) eqn:Ek; try apply accepted_none. simpl. apply accepted_set; [rewrite Ek; reflexivity|].
-      apply validate_zeros. exact Ek.
-    + unfold det_assign. destruct (det_setter tb (c_kind c)) eqn:Es; simpl.
-      * destruct (read2d o); simpl; try exact Hr. rewrite Hk. apply base_set_accepted; assumption.
-      * exfalso. eapply setter_not_raw; eauto.
-      * rewrite Hk. exact Hr.
-      * exact Hr.
-    + destruct (c_kind c) eqn:Ek; try apply accepted_none; try discriminate.
-      * destruct reset; simpl; [|exact Hr]. apply accepted_set; [rewrite Ek; reflexivity|]. apply validate_zeros. exact Ek.
-      * destruct (c_content c) as [cur|] eqn:Ec; [|exact Hr]. destruct reset; [|exact Hr].
-        assert (Hk2 : is_photon (c_kind c) = false) by (rewrite Ek; reflexivity).
-        rewrite validate_base_with_data, (accepted_base c Hk2 Hr cur Ec). simpl. apply accepted_set; [exact Hk2|].
-        rewrite validate_base_with_data. eapply accepted_base; eauto.
+  intros Hr. destruct iadd_kinds as [Ki Ka].
+  destruct o as [a|a|oa|a|a| | | |o'|o'|o'|reset|]; try exact Hr; try (apply dempty_accepted; exact Hr);
+    try (apply do_empty_accepted).
+  all: destruct (is_photon (c_kind c)) eqn:Hk; simpl; rewrite ?Hk, ?Ki, ?Ka; try exact Hr.
+  - apply photon_set2d_accepted; assumption.
+  - apply base_set_accepted; assumption.
+  - apply photon_set3d_accepted; assumption.
+  - destruct oa as [a|]; [apply base_set_accepted; assumption|].
+    destruct (upd_none tb (c_kind c)); [apply do_empty_accepted | apply accepted_none].
+  - apply photon_iadd_accepted; assumption.
+  - apply base_iadd_accepted; assumption.
+  - apply photon_iadd_accepted; assumption.
+  - apply base_iadd_accepted; assumption.
+  - apply det_assign_photon_accepted; assumption.
+  - unfold det_assign. destruct (det_setter tb (c_kind c)) eqn:Es; simpl.
+    + destruct (read2d tb o'); simpl; try exact Hr. rewrite Hk. apply base_set_accepted; assumption.
+    + exfalso. eapply setter_not_raw; eauto.
+    + rewrite Hk. exact Hr.
+    + exact Hr.
 Qed.
 
 Lemma run_cons c o t : run tb c (o :: t) = run tb (fst (step tb c o)) t.
@@ -636,37 +669,38 @@ Proof.
     + intro H; inversion H.
     + apply photon_iadd_raise; assumption.
     + apply photon_iadd_raise; assumption.
-    + destruct (c_kind c); intro H; inversion H.
+    + intro H; inversion H.
     + intro H; inversion H; reflexivity.
     + intro H; inversion H; reflexivity.
     + intro H; inversion H; reflexivity.
     + intro H; inversion H; reflexivity.
     + unfold det_assign. destruct (det_setter tb (c_kind c)); try (intro H; inversion H; reflexivity).
-      * destruct (read2d o'); try (intro H; inversion H; reflexivity). rewrite Hk. apply photon_set2d_raise.
+      * destruct (read2d tb o'); try (intro H; inversion H; reflexivity). rewrite Hk. apply photon_set2d_raise.
       * rewrite Hk. simpl. destruct (c_content o') as [a|]; [|intro H; inversion H].
         destruct (is_xr a); [|apply photon_set2d_raise].
         destruct (is_photon (c_kind o')); [apply photon_set3d_raise | intro H; inversion H; reflexivity].
-    + destruct (c_kind c); try (intro H; inversion H; fail); simpl in Hk; discriminate.
+    + rewrite (is_photon_kind _ Hk). destruct (d_empty tb Photon); [|destruct reset|]; intro H; inversion H.
     + intro H; inversion H; reflexivity.
   - destruct o as [a|a|oa|a|a| | | |o'|o'|o'|reset|]; simpl; rewrite ?Hk.
     + apply base_set_raise.
     + intro H; inversion H.
-    + destruct oa; [apply base_set_raise | intro H; inversion H].
+    + destruct oa; [apply base_set_raise | destruct (upd_none tb (c_kind c)); intro H; inversion H].
     + apply base_iadd_raise; assumption.
     + apply base_iadd_raise; assumption.
-    + destruct (c_kind c); intro H; inversion H.
+    + intro H; inversion H.
     + intro H; inversion H; reflexivity.
     + intro H; inversion H.
     + intro H; inversion H; reflexivity.
     + intro H; inversion H; reflexivity.
     + unfold det_assign. destruct (det_setter tb (c_kind c)); try (intro H; inversion H; reflexivity).
-      * destruct (read2d o'); try (intro H; inversion H; reflexivity). rewrite Hk. apply base_set_raise.
+      * destruct (read2d tb o'); try (intro H; inversion H; reflexivity). rewrite Hk. apply base_set_raise.
       * rewrite Hk. simpl. intro H; inversion H.
-    + destruct (c_kind c) eqn:Ek; try (intro H; inversion H; fail).
-      * destruct reset; intro H; inversion H.
-      * destruct (c_content c) as [cur|] eqn:Ec; [|intro H; inversion H]. destruct reset; [|intro H; inversion H].
-        assert (Hk2 : is_photon (c_kind c) = false) by (rewrite Ek; reflexivity).
-        rewrite validate_base_with_data, (accepted_base c Hk2 Hr cur Ec). intro H; inversion H.
+    + destruct (c_kind c) eqn:Ek;
+        try (destruct (d_empty tb _); [|destruct reset|]; intro H; inversion H; fail).
+      destruct (c_content c) as [cur|] eqn:Ec; [|intro H; inversion H].
+      destruct (reset && mkid_phase_zero tb); [|intro H; inversion H].
+      assert (Hk2 : is_photon (c_kind c) = false) by (rewrite Ek; reflexivity).
+      rewrite validate_base_with_data, (accepted_base c Hk2 Hr cur Ec). intro H; inversion H.
     + intro H; inversion H; reflexivity.
 Qed.
 
@@ -679,18 +713,41 @@ Qed.
 
 (* ---------------------------------------------------------------- reads *)
 
-Theorem read_empty_raises c : c_content c = None -> step tb c ORead = (c, Raise ValueError).
-Proof. intro H. simpl. unfold read2d. rewrite H. reflexivity. Qed.
+Lemma read_guards :
+  (exists e, rd_base tb = Some e) /\ (exists e, rd_ph2_none tb = Some e) /\ (exists e, rd_ph3_none tb = Some e)
+  /\ (exists e, aa_base tb = Some e) /\ (exists e, aa_ph_none tb = Some e).
+Proof.
+  destruct tb_parts as [_ [_ [_ [_ [_ [_ [H _]]]]]]]. unfold reads_guarded in H.
+  repeat (apply andb_prop in H; destruct H as [H ?]). unfold guard_present in *.
+  repeat split; match goal with |- exists e, ?g = Some e => destruct g; [eexists; reflexivity | discriminate] end.
+Qed.
+
+(* reading an empty container raises, whichever way it is read *)
+Theorem read_empty_raises c : c_content c = None -> exists e, step tb c ORead = (c, Raise e).
+Proof.
+  intro H. destruct read_guards as [[e1 G1] [[e2 G2] _]]. simpl. unfold read2d, content_none.
+  rewrite H, G1, G2. simpl. destruct (is_photon (c_kind c)); eexists; reflexivity.
+Qed.
 
 Theorem read3d_empty_raises c :
-  c_kind c = Photon -> c_content c = None -> step tb c ORead3D = (c, Raise ValueError).
-Proof. intros Hk H. simpl. rewrite Hk. simpl. unfold read3d. rewrite H. reflexivity. Qed.
+  c_kind c = Photon -> c_content c = None -> exists e, step tb c ORead3D = (c, Raise e).
+Proof.
+  intros Hk H. destruct read_guards as [_ [_ [[e3 G3] _]]]. simpl. rewrite Hk. simpl. unfold read3d, content_none.
+  rewrite H, G3. simpl. eexists; reflexivity.
+Qed.
 
 Theorem asarray_empty_raises c :
   c_content c = None -> exists e, step tb c OAsArray = (c, Raise e).
 Proof.
-  intro H. simpl. unfold asarray_res. rewrite H. destruct (is_photon (c_kind c)); eexists; reflexivity.
+  intro H. destruct read_guards as [_ [_ [_ [[e4 G4] [e5 G5]]]]]. simpl. unfold asarray_res, content_none, content_np.
+  rewrite H, G4, G5. simpl. destruct (is_photon (c_kind c)); eexists; reflexivity.
 Qed.
+
+Lemma ret_content_arr c a : ret_content c = RetArr a -> c_content c = Some a.
+Proof. unfold ret_content. destruct (c_content c); intro H; inversion H; reflexivity. Qed.
+
+Lemma read2d_arr c a : read2d tb c = RetArr a -> c_content c = Some a.
+Proof. unfold read2d. destruct (if is_photon (c_kind c) then _ else _); [discriminate|]. apply ret_content_arr. Qed.
 
 (* a read never returns anything but the stored array, and never changes the state *)
 Theorem read_returns_content c c' a :
@@ -698,13 +755,55 @@ Theorem read_returns_content c c' a :
   c' = c /\ c_content c = Some a.
 Proof.
   intros [H|[H|H]]; simpl in H.
-  - inversion H. split; [reflexivity|]. apply read2d_arr_base. assumption.
+  - inversion H. split; [reflexivity|]. apply read2d_arr. assumption.
   - destruct (is_photon (c_kind c)); [|discriminate]. injection H as Hc Hr. split; [symmetry; exact Hc|].
-    unfold read3d in Hr. destruct (c_content c) as [x|]; [|discriminate]. destruct (is_xr x); [|discriminate].
-    injection Hr as ->. reflexivity.
+    unfold read3d in Hr. destruct (first_fail _); [discriminate|]. apply ret_content_arr. exact Hr.
   - injection H as Hc Hr. split; [symmetry; exact Hc|]. unfold asarray_res in Hr.
-    destruct (c_content c) as [x|]; [|destruct (is_photon (c_kind c)); discriminate].
-    destruct (is_xr x); [discriminate|]. injection Hr as ->. reflexivity.
+    destruct (is_photon (c_kind c)); destruct (first_fail _); try discriminate;
+      [apply read2d_arr | apply ret_content_arr]; exact Hr.
+Qed.
+
+(* ---------------------------------------------------------------- resets leave nothing behind *)
+
+Lemma forallb_mul0 l : forallb (fun c => cell_eqb (Fin 0) c || cell_is_nan c) (map cell_mul0 l) = true.
+Proof. induction l as [|x t IH]; [reflexivity|]. cbn [map forallb]. rewrite IH. destruct x; reflexivity. Qed.
+
+Lemma forallb_zeros n : forallb (cell_eqb (Fin 0)) (repeat (Fin 0) n) = true.
+Proof. induction n; simpl; auto. Qed.
+
+Lemma reset_ok_none k o before : reset_ok k o before None = true.
+Proof. destruct o as [a|a|[a| ]|a|a| | | |o'|o'|o'|[ | ]| ]; destruct k; reflexivity. Qed.
+
+Lemma reset_ok_do_empty c o :
+  (o = OEmpty \/ o = OUpdate None \/ o = ODEmpty true) ->
+  reset_ok (c_kind c) o (c_content c) (c_content (do_empty tb c)) = true.
+Proof.
+  intros Ho. destruct (do_empty_cases c) as [-> | [Ek ->]].
+  - cbn [c_content with_content]. apply reset_ok_none.
+  - cbn [c_content with_content]. rewrite Ek.
+    destruct Ho as [-> | [-> | ->]]; simpl; apply forallb_zeros.
+Qed.
+
+(* empty(), update(None) and detector.empty(reset): the state afterwards meets the reset clause of the
+   specification (None; zeros for Pixel; zeros/NaN for the MKID phase), whatever the state before *)
+Theorem reset_leaves_nothing c o :
+  (o = OEmpty \/ o = OUpdate None \/ o = ODEmpty true) -> (o = OUpdate None -> c_kind c <> Photon) ->
+  reset_ok (c_kind c) o (c_content c) (c_content (fst (step tb c o))) = true.
+Proof.
+  destruct empty_kinds as [E1 [E2 [E3 [E4 [D1 [D2 [D3 [D4 Em]]]]]]]].
+  intros [-> | [-> | ->]] Hu.
+  - cbn [step fst]. apply reset_ok_do_empty; auto.
+  - cbn [step]. assert (Hk : is_photon (c_kind c) = false) by (destruct (c_kind c); try reflexivity; exfalso; apply Hu; reflexivity).
+    rewrite Hk. destruct (upd_none tb (c_kind c)); cbn [fst].
+    + apply reset_ok_do_empty; auto.
+    + apply reset_ok_none.
+  - cbn [step]. destruct (c_kind c) eqn:Ek.
+    + rewrite D1. cbn [fst]. rewrite <- Ek. apply reset_ok_do_empty; auto.
+    + destruct (d_empty tb Pixel) eqn:Ed; try congruence; cbn [fst]; rewrite <- Ek; apply reset_ok_do_empty; auto.
+    + rewrite D2. cbn [fst]. rewrite <- Ek. apply reset_ok_do_empty; auto.
+    + rewrite D3. cbn [fst]. rewrite <- Ek. apply reset_ok_do_empty; auto.
+    + destruct (c_content c) as [cur|] eqn:Ec; [|simpl; rewrite Ec; reflexivity].
+      rewrite Em. simpl. destruct (validate_base tb c _); simpl; apply forallb_mul0.
 Qed.
 
 End WithTables.
